@@ -51,7 +51,7 @@ def parseOp (tok : String) : Option Op :=
 def renderView (v : Option View) : String :=
   match v with
   | none => "~"
-  | some v => (if v.det then "det" else toString v.off) ++ "+" ++ toString v.len
+  | some v => toString v.off ++ "+" ++ toString v.len
 
 def renderVal : Val → String
   | .unit => "-"
@@ -64,8 +64,6 @@ def renderVal : Val → String
   | .opt (some n) => "some" ++ toString n
   | .lenFmt n f => toString n ++ "/" ++ Format.str f
   | .addr (.inSec n) => "id" ++ toString n
-  | .addr .dangling => "iddet"
-  | .det => "det"
   | .rdr => "r"
   | .bad => "bad"
 
